@@ -387,6 +387,224 @@ def nominal_degree(name, n):
 SHUNN_HAM_DOC = {1: 1, 2: 2, 3: 3, 4: 5, 5: 6, 6: 7}  # Shunn & Ham 2012, table 2 (n -> degree)
 
 
+
+# -------------------------------------------------------------------------------------------------
+# conformance of the natively modelled Rule class (E1.rule-model)
+# -------------------------------------------------------------------------------------------------
+
+def _core(n):
+    """strip explicit casts, std::move/std::forward and copy constructions: the value that flows"""
+    while n is not None:
+        k = n.get("k")
+        if k == "Cast":
+            n = n.get("e")
+        elif k in ("Call",) and strip_targs(n.get("callee", "")) in ("std::move", "std::forward") and n.get("a"):
+            n = n["a"][0]
+        elif k in ("Construct", "TempObj") and len(n.get("a", [])) == 1 and (n.get("copy") or strip_targs(n.get("ccls", "")) == strip_targs(n.get("callee", "")).rsplit("::", 1)[0]):
+            n = n["a"][0]
+        else:
+            break
+    return n
+
+
+def _member_of(n, owner):
+    """name of the data member if n is `owner.member` (owner = 'this' or a decl id), else None"""
+    n = _core(n)
+    if n is None or n.get("k") != "Member" or not n.get("field"):
+        return None
+    b = _core(n.get("b"))
+    if owner == "this":
+        return n["n"] if b is not None and b.get("k") == "This" else None
+    return n["n"] if b is not None and b.get("k") == "Ref" and b.get("d") == owner else None
+
+
+def _stmts(body):
+    return [x for x in (body or {}).get("s", [])] if body and body.get("k") == "Block" else ([body] if body else [])
+
+
+def check_rule_model(ck, facts):
+    """The folder models Cubature::Rule / Scalar::Rule natively (count, name, weights, points).  This rule checks
+    that the source of those classes conforms to that model: roles of the data members are taken from the accessors,
+    then the allocating constructor, move constructor, move assignment and clone() must define every role of the
+    result from the same role of the source."""
+    RULE = "E1.rule-model"
+    classes = {}
+    for f in facts.functions:
+        if f.tk == "pattern":
+            continue
+        c = strip_targs(f.cls)
+        if c in ("FEAT::Cubature::Rule", "FEAT::Cubature::Scalar::Rule"):
+            classes.setdefault(f.cls, []).append(f)
+    seen = set()
+
+    def ob(cname, key, ok, detail, f, line=None):
+        k = "%s::%s" % (cname, key)
+        if (k, ok) in seen:
+            return
+        seen.add((k, ok))
+        ck.ob(RULE, k, ok, detail, f.file, line or f.line)
+
+    for cls, fns in sorted(classes.items()):
+        cname = strip_targs(cls).replace("FEAT::Cubature::", "")
+        scalar = "Scalar" in cname
+        roles = {}
+
+        def single_return(f):
+            rets = [x for x in f.nodes() if x.get("k") == "Return"]
+            return rets[0].get("e") if len(rets) == 1 else None
+        # ---- roles from the accessors
+        for f in fns:
+            e = single_return(f) if f.name.startswith("get_") else None
+            if e is None:
+                continue
+            e = _core(e)
+            if f.name in ("get_num_points", "get_name") and not f.params:
+                m = _member_of(e, "this")
+                role = "count" if f.name == "get_num_points" else "name"
+                if m is None:
+                    ck.incomplete(RULE, "%s::%s does not return a data member" % (cname, f.name))
+                else:
+                    if roles.get(role, m) != m:
+                        ob(cname, f.name, False, "returns member %s, other accessors use %s" % (m, roles[role]), f)
+                    roles.setdefault(role, m)
+            elif f.name in ("get_weight", "get_point") or (f.name == "get_coord"):
+                role = "weights" if f.name == "get_weight" else "points"
+                idx = []
+                cur = e
+                while cur is not None and cur.get("k") == "OpCall" and cur.get("op") == "[]" and len(cur.get("a", [])) == 2:
+                    idx.insert(0, _core(cur["a"][1]))
+                    cur = _core(cur["a"][0])
+                m = _member_of(cur, "this")
+                want = 2 if (f.name == "get_coord" and not scalar) else 1
+                pids = [p_["d"] for p_ in f.params]
+                good = m is not None and len(idx) == want and [x.get("d") for x in idx] == pids[:want] and len(f.params) == want
+                if m is None:
+                    ck.incomplete(RULE, "%s::%s: returned expression `%s` is not a subscript of a data member" % (cname, f.name, featlib.render(e)))
+                    continue
+                if roles.get(role, m) != m:
+                    good = False
+                roles.setdefault(role, m)
+                ob(cname, "%s/%d%s" % (f.name, len(f.params), "c" if f.d.get("const") else ""), good,
+                   "returns %s%s" % (m, "".join("[%s]" % featlib.render(x) for x in idx)) + ("" if good else " - expected %s subscripted by the parameters in order" % roles[role]), f)
+        if set(roles) != {"count", "name", "weights", "points"}:
+            ck.incomplete(RULE, "%s: member roles not established from the accessors (%s)" % (cname, sorted(roles)))
+            continue
+        byrole = {v: k for k, v in roles.items()}
+
+        # ---- allocating constructor Rule(int, String)
+        ctor2 = [f for f in fns if f.d.get("ctor") and len(f.params) == 2 and "int" in f.type(f.params[0]["t"])]
+        move_ctor = [f for f in fns if f.d.get("ctor") and len(f.params) == 1 and f.type(f.params[0]["t"]).endswith("&&")]
+        move_asg = [f for f in fns if f.name == "operator=" and len(f.params) == 1 and f.type(f.params[0]["t"]).endswith("&&")]
+        clones = [f for f in fns if f.name == "clone" and not f.params]
+        if not (ctor2 and move_ctor and move_asg and clones):
+            ck.incomplete(RULE, "%s: allocating ctor / move ctor / move assignment / clone not all found" % cname)
+            continue
+        ctor_param_role = {}
+        for f in ctor2[:1]:
+            defined = {}
+            for it in f.d.get("inits", []):
+                v = _core(it["init"])
+                if v is not None and v.get("k") == "Ref" and v.get("dk") == "param":
+                    defined[it["member"]] = [p_["d"] for p_ in f.params].index(v["d"])
+            resized = {}
+            for n in f.nodes():
+                if n.get("k") == "MCall" and n.get("n") in ("resize", "assign") and n.get("a"):
+                    m = _member_of(n.get("obj"), "this")
+                    a0 = _core(n["a"][0])
+                    if m and a0 is not None and a0.get("k") == "Ref" and a0.get("dk") == "param":
+                        resized[m] = [p_["d"] for p_ in f.params].index(a0["d"])
+            okc = defined.get(roles["count"]) == 0 and defined.get(roles["name"]) == 1 and resized.get(roles["weights"]) == 0 and resized.get(roles["points"]) == 0
+            ob(cname, "Rule(int,String)", okc, "count<-param %s, name<-param %s, weights sized by param %s, points sized by param %s" % (
+                defined.get(roles["count"]), defined.get(roles["name"]), resized.get(roles["weights"]), resized.get(roles["points"])), f)
+            if okc:
+                ctor_param_role = {0: "count", 1: "name"}
+
+        def transfer_verdict(got, what, f):
+            """got: role -> source description ('role:<r>' | 'other:<text>' | None)"""
+            for role in ("count", "name", "weights", "points"):
+                src = got.get(role)
+                key = "%s/%s" % (what, role)
+                if src == "role:" + role:
+                    ob(cname, key, True, "%s of the result is taken from %s of the source" % (roles[role], roles[role]), f)
+                elif src is None:
+                    ob(cname, key, False, "%s (%s) of the result is not defined from the source: the result differs from the source rule" % (roles[role], role), f)
+                elif src.startswith("?"):
+                    ck.incomplete(RULE, "%s::%s: %s is defined by `%s`, not understood" % (cname, what, roles[role], src[1:]))
+                else:
+                    ob(cname, key, False, "%s (%s) of the result is defined from `%s` instead of %s of the source" % (roles[role], role, src.split(":", 1)[1], roles[role]), f)
+
+        def classify(expr, owner):
+            e = _core(expr)
+            m = _member_of(e, owner)
+            if m is not None:
+                return "role:" + byrole[m] if m in byrole else "other:" + m
+            if e is not None and e.get("k") == "MCall" and not e.get("a"):
+                o = _core(e.get("obj"))
+                is_owner = o is not None and ((owner == "this" and o.get("k") == "This") or (o.get("k") == "Ref" and o.get("d") == owner))
+                if is_owner and e.get("n") == "get_num_points":
+                    return "role:count"
+                if is_owner and e.get("n") == "get_name":
+                    return "role:name"
+            if e is not None and e.get("k") in ("Int", "Float", "Str"):
+                return "other:" + featlib.render(e)
+            return "?" + featlib.render(expr)
+
+        for f in move_ctor[:1]:
+            other = f.params[0]["d"]
+            got = {}
+            for it in f.d.get("inits", []):
+                if it["member"] in byrole:
+                    got[byrole[it["member"]]] = classify(it["init"], other)
+            transfer_verdict(got, "Rule(Rule&&)", f)
+        for f in move_asg[:1]:
+            other = f.params[0]["d"]
+            got = {}
+            for st in _stmts(f.body):
+                lhs = rhs = None
+                if st.get("k") == "Assign" and st.get("op") == "=":
+                    lhs, rhs = st["lhs"], st["rhs"]
+                elif st.get("k") == "OpCall" and st.get("op") == "=" and len(st.get("a", [])) == 2:
+                    lhs, rhs = st["a"]
+                if lhs is None:
+                    continue
+                m = _member_of(lhs, "this")
+                if m in byrole:
+                    got[byrole[m]] = classify(rhs, other)
+            transfer_verdict(got, "operator=(Rule&&)", f)
+        for f in clones[:1]:
+            got = {}
+            local = None
+            for st in _stmts(f.body):
+                if st.get("k") == "Decl":
+                    for v in st["vars"]:
+                        init = v.get("init")
+                        if init is not None and init.get("k") in ("Construct", "TempObj") and strip_targs(init.get("ccls", "")) == strip_targs(cls):
+                            local = v["d"]
+                            if len(init.get("a", [])) == 2 and ctor_param_role:
+                                for pos, role in ctor_param_role.items():
+                                    got[role] = classify(init["a"][pos], "this")
+                                # the allocating ctor sizes both arrays by the count argument, contents come below
+                            elif len(init.get("a", [])) == 0:
+                                pass
+                            else:
+                                got["count"] = "?" + featlib.render(init)
+                lhs = rhs = None
+                if st.get("k") == "Assign" and st.get("op") == "=":
+                    lhs, rhs = st["lhs"], st["rhs"]
+                elif st.get("k") == "OpCall" and st.get("op") == "=" and len(st.get("a", [])) == 2:
+                    lhs, rhs = st["a"]
+                if lhs is not None and local is not None:
+                    m = _member_of(lhs, local)
+                    if m in byrole:
+                        got[byrole[m]] = classify(rhs, "this")
+            rets = [x for x in f.nodes() if x.get("k") == "Return"]
+            r0 = _core(rets[0].get("e")) if len(rets) == 1 else None
+            if local is None or r0 is None or r0.get("k") != "Ref" or r0.get("d") != local:
+                ck.incomplete(RULE, "%s::clone: result is not a local rule object built in the function" % cname)
+                continue
+            transfer_verdict(got, "clone()", f)
+
+
 DIGITS = set("0123456789")
 TRIMS = ("trim", "trim_front", "trim_back")
 
@@ -506,6 +724,9 @@ def run(tier):
     ck.rule("E9.refine", "refine:<rule> keeps the weight sum and the degree of its base rule", 10)
     ck.rule("E13.auto-degree", "auto-degree:d maps, for every d <= max_degree, to a rule whose established degree is >= d", 30)
     ck.rule("E7.unknown-refused", "DynamicFactory::create returns true only through a factory whose name comparison succeeded; create_throw throws on false", 6)
+    ck.rule("E1.rule-model", "the Rule / Scalar::Rule operations that the folder models natively (accessors, allocating constructor, move "
+            "constructor, move assignment, clone) conform to the model: every role (count, name, weights, points) of the result is defined from the "
+            "same role of the source", 36)
     ck.rule("E7.param-fully-parsed", "every numeric name parameter (point count, refine count, degree) read with String::parse - a prefix parse - is "
             "accepted only if the whole parameter string was validated (digits only), so a malformed name is refused instead of answered with another rule", 4)
 
@@ -963,6 +1184,9 @@ def run(tier):
                         if not any(cfg.stmt_dominates(ci, n["i"]) for ci in cmp_ids):
                             ok = False
             ck.ob("E7.unknown-refused", "name-check/" + f.full[:110], ok, "name comparison (compare_no_case != 0 -> return false) dominates every successful return" if ok else "a successful return is reachable without the name comparison", f.file, f.line)
+
+    # ---- the natively modelled Rule class conforms to the model
+    check_rule_model(ck, facts)
 
     # ---- numeric name parameters are validated as a whole --------------------------------------------------
     check_param_fully_parsed(ck, facts)
